@@ -329,7 +329,17 @@ def _p_plist_last(interp, args, kwargs, env):
     return tail[-1]
 
 
+def _p_ghost(interp, args, kwargs, env):
+    """ghost('name'): a ghost value installed by the prelude / maintained by stubs (pre-state inside old(...))"""
+    name = args[0]
+    u = interp.ctx.ghost.get("user", {})  # old(...) evaluates with the pre-state ghost installed
+    if name not in u:
+        raise SpecError(f"ghost {name!r} is not defined")
+    return u[name]
+
+
 PRIMS = {
+    "ghost": Prim("ghost", _p_ghost),
     "plist_append": Prim("plist_append", _p_plist_append),
     "plist_last": Prim("plist_last", _p_plist_last),
     "date_of_ymd": Prim("date_of_ymd", _p_date_of("Ymd")),
@@ -368,6 +378,10 @@ def fs_read(p):
 
 def fs_unchanged():
     raise NotImplementedError("fs_unchanged is symbolic-only (the bounded tier compares directory snapshots)")
+
+
+def ghost(name):
+    raise NotImplementedError("ghost values exist in the symbolic run only")
 
 
 def fs_only_changed(*p):
